@@ -14,6 +14,8 @@ func (g *GenRef) build(t int8) *SegBuf {
 	switch g.Kind {
 	case "nest":
 		s, _ = nestValue(g.NKind, g.Levels, g.Inner)
+	case "nestmix":
+		s, _ = nestMixed(g.NKind)
 	default:
 		rng := rand.New(rand.NewSource(g.Seed))
 		vg := &valGen{rng: rng, budget: g.Budget, bigStr: g.Big}
@@ -258,6 +260,11 @@ func hostileSkipCases(c *Ctx, n int, seedBase int64) []json.RawMessage {
 			}
 		}
 	}
+	// chains that MIX container kinds (k levels of one kind, then another; cycles), on both sides of the depth limit
+	for _, pat := range mixedNestPatterns(c.Thorough()) {
+		_, top := nestMixed(pat)
+		add(SkipCase{T: int(top), Gen: &GenRef{Kind: "nestmix", NKind: pat}, Note: "nestmix"})
+	}
 	// short raw strings over the grammar alphabet under every known type
 	alpha := []byte{0x00, 0x01, 0x02, 0x08, 0x0b, 0x0c, 0x0d, 0x0f, 0x80, 0xff}
 	for i := 0; i < n; i++ {
@@ -267,6 +274,99 @@ func hostileSkipCases(c *Ctx, n int, seedBase int64) []json.RawMessage {
 			b[k] = alpha[rng.Intn(len(alpha))]
 		}
 		add(SkipCase{T: int(allTypes[rng.Intn(len(allTypes))]), Hex: hexOf(&SegBuf{b: b}), Note: "raw"})
+	}
+	return out
+}
+
+// nestMixed builds one value nested len(pattern) levels deep, level i being of the kind pattern[i]:
+// 's' struct (one field), 'l' list, 't' set, 'v' map value, 'k' map key; the innermost container is empty.
+func nestMixed(pattern string) (*SegBuf, int8) {
+	tp := func(c byte) byte {
+		switch c {
+		case 's':
+			return 12
+		case 'l':
+			return 15
+		case 't':
+			return 14
+		}
+		return 13
+	}
+	s := &SegBuf{}
+	var emit func(i int)
+	emit = func(i int) {
+		last := i == len(pattern)-1
+		inner := byte(8)
+		if !last {
+			inner = tp(pattern[i+1])
+		}
+		switch pattern[i] {
+		case 's':
+			if !last {
+				s.Struct(inner, 0, 1)
+				emit(i + 1)
+			}
+			s.Struct(0)
+		case 'l', 't':
+			s.Struct(inner)
+			if last {
+				s.Size4(0)
+			} else {
+				s.Size4(1)
+				emit(i + 1)
+			}
+		case 'v':
+			s.Struct(8, inner)
+			if last {
+				s.Size4(0)
+			} else {
+				s.Size4(1)
+				s.Lit(0, 0, 0, 9)
+				emit(i + 1)
+			}
+		default: // 'k'
+			s.Struct(inner, 8)
+			if last {
+				s.Size4(0)
+			} else {
+				s.Size4(1)
+				emit(i + 1)
+				s.Lit(0, 0, 0, 9)
+			}
+		}
+	}
+	emit(0)
+	return s, int8(tp(pattern[0]))
+}
+
+// mixedNestPatterns: chains that mix container kinds, total depth on both sides of the limit of 64.
+func mixedNestPatterns(thorough bool) []string {
+	var out []string
+	rep := func(c string, n int) string { return strings.Repeat(c, n) }
+	totals := []int{63, 64, 65, 66, 70}
+	if thorough {
+		totals = []int{60, 61, 62, 63, 64, 65, 66, 67, 70, 100, 126, 127, 128, 129}
+	}
+	for _, total := range totals {
+		for _, k := range []int{1, 2, 3, 10, 32, 60, 63} {
+			if k >= total {
+				continue
+			}
+			for _, a := range []string{"s", "l", "t", "v", "k"} {
+				for _, b := range []string{"s", "l", "v", "k"} {
+					if a != b {
+						out = append(out, rep(a, k)+rep(b, total-k))
+					}
+				}
+			}
+		}
+		for _, cyc := range []string{"sl", "ls", "sv", "ks", "slvkt", "ssl", "lls", "sst"} {
+			p := ""
+			for len(p) < total {
+				p += cyc
+			}
+			out = append(out, p[:total])
+		}
 	}
 	return out
 }
